@@ -180,6 +180,11 @@ func runCheckStake(ctx *action.Context, tx action.RawTx) (bool, action.Response)
 		return false, action.Response{Log: err.Error()}
 	}
 
+	// the amount is narrowed to int64 by ToCoinWithBase and DeliverTx does not run Validate
+	if v := st.Stake.Value.BigInt(); v.Sign() < 0 || !v.IsInt64() {
+		return false, action.Response{Log: action.ErrInvalidAmount.Error()}
+	}
+
 	if ctx.EvidenceStore.IsFrozenValidator(st.ValidatorAddress) {
 		return false, action.Response{Log: evidence.ErrFrozenValidator.Error()}
 	}
